@@ -76,6 +76,11 @@ impl SwiftField for Field58A {
         }
 
         let bic = parse_bic(lines[bic_line_idx])?;
+        if lines.len() > bic_line_idx + 1 {
+            return Err(ParseError::InvalidFormat {
+                message: "Field 58A has no line after the BIC".to_string(),
+            });
+        }
 
         Ok(Field58A {
             party_identifier,
